@@ -65,6 +65,7 @@ def features(trace: dict, line: int) -> dict:
          "arg_nrows": [len(a.get("rows", [])) for a in args],
          "arg_names": [tuple(a.get("names", ())) for a in args],
          "arg_rows": [[tuple(r) for r in a.get("rows", [])] for a in args],
+         "arg_ties": [_has_ties(a) for a in args],
          "arg_maxexp": [max([e for row in a.get("rows", []) for e in row] or [0]) for a in args],
          "opts": ev.get("opts", {})}
     for k, v in ev.items():
@@ -72,6 +73,15 @@ def features(trace: dict, line: int) -> dict:
             continue
         f[k] = v
     return f
+
+
+def _has_ties(a):
+    """Does the operand contain two equal elements?"""
+    if a.get("kind") == "poly":
+        cols = list(zip(*[[json.dumps(c, sort_keys=True) for c in row] for row in a.get("coefs", [])])) if a.get("coefs") else []
+    else:
+        cols = [json.dumps(c, sort_keys=True) for c in a.get("vals", [])]
+    return len(set(cols)) < len(cols)
 
 
 def _size(shape):
